@@ -21,11 +21,12 @@ type c03Msg struct {
 	tag      string
 	sess     int
 	qos      int
-	id       int // identifier seen on the first copy
-	ackRound int // round in which the client acknowledges (PUBACK / PUBREC); -1 never
-	compOff  int // QoS 2: rounds after PUBREC until PUBCOMP
-	wrongAt  int // round with a wrong reply (-1 none)
-	wrongHow int // 0 wrong type, 1 unknown id
+	id       int  // identifier seen on the first copy
+	ackRound int  // round in which the client acknowledges (PUBACK / PUBREC); -1 never
+	compOff  int  // QoS 2: rounds after PUBREC until PUBCOMP
+	wrongAt  int  // round with a wrong reply (-1 none)
+	wrongHow int  // 0 wrong type, 1 unknown id
+	shared   bool // one publish on the shared topic, delivered to every session
 	// state
 	stage       int // 0 awaiting first ack, 1 (QoS 2) awaiting PUBCOMP, 2 completed
 	sweepsStage int // forced sweeps since the current stage began
@@ -103,6 +104,11 @@ func c03Scenario(c *fw.Ctx, s int) {
 			c.Inconclusive("subscribe: " + err.Error())
 			return
 		}
+		// a topic shared by all sessions: one message, several recipients, each with its own granted QoS
+		if err := cc.Sub1("c03/all", subQos[i]); err != nil {
+			c.Inconclusive("subscribe: " + err.Error())
+			return
+		}
 		subs[i] = cc
 		alive[i] = true
 		dieAt[i] = -1
@@ -131,6 +137,17 @@ func c03Scenario(c *fw.Ctx, s int) {
 			msgs = append(msgs, m)
 		}
 	}
+	shared := rg.Intn(2) == 0 && nSess > 1
+	sharedTag := fmt.Sprintf("c03-%d-shared", s)
+	if shared {
+		for i := 0; i < nSess; i++ {
+			m := &c03Msg{tag: sharedTag, sess: i, qos: subQos[i], ackRound: rg.Intn(5), compOff: rg.Intn(3), wrongAt: -1, shared: true}
+			if m.ackRound == 4 {
+				m.ackRound = -1
+			}
+			msgs = append(msgs, m)
+		}
+	}
 	script := []string{}
 	for _, m := range msgs {
 		script = append(script, fmt.Sprintf("%s q%d ack@%d comp+%d wrong@%d/%d", m.tag, m.qos, m.ackRound, m.compOff, m.wrongAt, m.wrongHow))
@@ -146,8 +163,17 @@ func c03Scenario(c *fw.Ctx, s int) {
 		return out
 	}
 	// publish everything (QoS 1 at the publisher; subscription QoS decides the delivery QoS)
+	sharedSent := false
 	for _, m := range msgs {
-		if acked, err := pub.Publish(fmt.Sprintf("c03/s%d", m.sess), []byte(m.tag), 1, false, kit.DefaultWait); !acked {
+		topic := fmt.Sprintf("c03/s%d", m.sess)
+		if m.shared {
+			if sharedSent {
+				continue
+			}
+			sharedSent = true
+			topic = "c03/all"
+		}
+		if acked, err := pub.Publish(topic, []byte(m.tag), 1, false, kit.DefaultWait); !acked {
 			c.Inconclusive(fmt.Sprintf("scenario %d: publish not acknowledged: %v", s, err))
 			return
 		}
@@ -298,6 +324,12 @@ func c03Scenario(c *fw.Ctx, s int) {
 			cc := subs[m.sess]
 			np, ids := c03Count(cc, kit.PUBLISH, m.tag, m.id)
 			nr, _ := c03Count(cc, kit.PUBREL, m.tag, m.id)
+			for _, e := range cc.Events() {
+				if e.Pkt.Type == kit.PUBLISH && string(e.Pkt.Payload) == m.tag && e.Pkt.Qos != m.qos {
+					c.Violation("retransmitted-with-other-qos", fmt.Sprintf("scenario %d: a copy of %s written to session %d has QoS %d, the subscription's QoS is %d", s, m.tag, m.sess, e.Pkt.Qos, m.qos), wit(nil))
+					return
+				}
+			}
 			if len(ids) > 1 {
 				c.Violation("retransmitted-with-new-identifier", fmt.Sprintf("scenario %d: copies of %s carry identifiers %v", s, m.tag, ids), wit(nil))
 				return
